@@ -1,5 +1,7 @@
 import RainModel.Model.Blocks
 import RainModel.Lemmas.Blocks
+import RainModel.Model.Geometry
+import RainModel.Lemmas.Geometry
 /-!
 C02 — piece/file geometry.  Property theorems only; helper lemmas live in `Lemmas/`.
 -/
@@ -41,5 +43,59 @@ tile `[pad 2][data 3]`; the same witness is kept in `corpus/blocks/`. -/
 theorem calcBlocksStale_counterexample :
     ∃ bl, calcBlocksStale 4 [⟨2, true⟩, ⟨3, false⟩] = some bl ∧ Tiles 4 [⟨2, true⟩, ⟨3, false⟩] bl = false := by
   exact ⟨[⟨0, 3⟩], by decide, by decide⟩
+
+/-! ### `piece.NewPieces` -/
+section NewPieces
+open Rain.Geometry
+
+/-- **newPieces_tiles.** For every input satisfying what `metainfo.NewInfo` establishes (`WF`: at
+least one file, lengths ≥ 0 summing to `Length`, `0 < pieceLength < 2^32`,
+`(n−1)·pl < Length ≤ n·pl`) the two-cursor loop of `NewPieces` does not panic (no index out of
+range in `nextFile`) and its result satisfies `TilesFiles` — the very predicate the check
+evaluates on the implementation's output: there are `n` pieces; the flattened per-byte stream of
+`(fileIndex, offset)` over all sections of all pieces in order equals the stream of all files'
+bytes in order (each byte exactly once; zero-length files contribute zero-length sections or
+none); every piece's length is the sum of its sections, equals `pl` except for a non-empty,
+possibly shorter last piece; the piece lengths sum to `Length`; every section carries the
+padding flag and name of its file and lies inside it. -/
+theorem newPieces_tiles (files : List FileEnt) (pl n L : Nat) (h : WF files pl n L) :
+    ∃ ps steps, newPieces files pl n L = .ok (ps, steps) ∧ TilesFiles files pl n L ps = true := by
+  obtain ⟨ps, st, hrun, ht, _⟩ := newPieces_spec files pl n L h
+  exact ⟨ps, st, hrun, ht⟩
+
+/-- **newPieces_steps_le.** For *every* input (well-formed or not, non-negative lengths) the
+model's fuel is never exhausted — `NewPieces` terminates — and the number of iterations of the
+inner loop is at most `numPieces + numFiles`, independent of `Length` and of the file sizes
+(work linear in the size of the metainfo; used by C06). -/
+theorem newPieces_steps_le (files : List FileEnt) (pl n L : Nat) :
+    newPieces files pl n L ≠ .fuel ∧
+    ∀ ps steps, newPieces files pl n L = .ok (ps, steps) → steps ≤ n + files.length := by
+  cases files with
+  | nil => exact ⟨by simp [newPieces], by simp [newPieces]⟩
+  | cons f r =>
+    simp only [newPieces]
+    rcases pieces_steps pl L n { fi := 0, cur := f, rest := r, foff := 0, total := 0 } with hp | ⟨ps, st, hrun, hst⟩
+    · rw [hp]; exact ⟨by simp, by simp⟩
+    · rw [hrun]
+      refine ⟨by simp, ?_⟩
+      intro ps' st' heq
+      cases heq
+      simp only [List.length_cons] at hst ⊢
+      omega
+
+/-- Non-vacuity: a layout with a zero-length file, a padding file straddling a piece boundary,
+and a short last piece is well-formed, and the loop produces exactly this tiling in 6 steps. -/
+example : WF [⟨3, false, 1⟩, ⟨0, false, 2⟩, ⟨2, true, 3⟩, ⟨4, false, 4⟩] 4 3 9 ∧
+    newPieces [⟨3, false, 1⟩, ⟨0, false, 2⟩, ⟨2, true, 3⟩, ⟨4, false, 4⟩] 4 3 9 = .ok (
+      [⟨4, [⟨0, 0, 3, false, 1⟩, ⟨1, 0, 0, false, 2⟩, ⟨2, 0, 1, true, 3⟩]⟩,
+       ⟨4, [⟨2, 1, 1, true, 3⟩, ⟨3, 0, 3, false, 4⟩]⟩,
+       ⟨1, [⟨3, 3, 1, false, 4⟩]⟩], 6) := by decide
+
+/-- The hypothesis matters: with one byte more announced than the files hold the loop runs off
+the end of the file list (the index panic of `nextFile`), and the predicate is not trivially true. -/
+example : newPieces [⟨3, false, 1⟩] 4 1 4 = .panic ∧
+    TilesFiles [⟨3, false, 1⟩, ⟨1, false, 2⟩] 4 1 4 [⟨4, [⟨0, 0, 4, false, 1⟩]⟩] = false := by decide
+
+end NewPieces
 
 end Rain.Props.C02
